@@ -172,7 +172,7 @@ def check_error_message(msg, ntoks):
 def contexts(tier):
     q = tier == "quick"
     out = []
-    for c, n in c02.contexts(tier) + c03.contexts(tier, rare=False) + c05.contexts(tier):
+    for c, n in c02.contexts(tier) + c03.contexts(tier) + c05.contexts(tier):
         if isinstance(c, PatCtx):
             if "+pragma" in c.name and not c.name.split("@")[0].endswith(("0", "5", "8", "9", "16")):
                 continue
